@@ -94,6 +94,19 @@ def check(run):
         c = json.loads(json.dumps(casts[i % 3]))
         c["conns"] = {int(k): v for k, v in c["conns"].items()}
         scns.append(sessionlib.build(h, c))
+    # the same client identifier in both tenants, with keep-alive exchanges before and after the other tenant's session connects:
+    # resolving a client identifier (at CONNECT and at every PINGREQ) must never cross tenants
+    E = lambda op, c, x="": {"op": op, "c": c, "x": x}
+    same = [[E("connect", 1), E("ping", 1), E("connect", 2), E("ping", 2), E("ping", 1), E("publish", 0)],
+            [E("connect", 1), E("connect", 2), E("ping", 2), E("ping", 1), E("publish", 0), E("ping", 2)],
+            [E("connect", 2), E("ping", 2), E("connect", 1), E("sub", 1), E("publish", 0), E("ping", 2), E("ping", 1)],
+            [E("connect", 1), E("ping", 1), E("connect", 2), E("end", 2, "disconnect"), E("ping", 1), E("publish", 0)],
+            [E("connect", 1), E("ping", 1), E("connect", 2), E("connect", 3), E("ping", 1), E("ping", 2), E("ping", 3)]]
+    for h in same:
+        for cst in casts:
+            c = json.loads(json.dumps(cst))
+            c["conns"] = {int(k): v for k, v in c["conns"].items()}
+            scns.append(sessionlib.build(h, c))
     ff = failure_family("A", "B") + failure_family("org/north", "org/south") + failure_family("A", "org/south")
     scns += ff
     run.log("%d tenant scripts (%d with the failure of a node hosting wills named like the other tenant)" % (len(scns), len(ff)))
@@ -110,7 +123,8 @@ def check(run):
         "rule": "scenario = TLC-generated script (depth %d, >= 2 connects and >= 1 publish round) for 3 connections in tenants A, B, A with client ids "
                 "dev, dev, dev3 on two nodes; each publish round publishes in both tenants (one retained) on topics that also exist in the other "
                 "tenant and on topics named like the other tenant; three '#' watchers (A, B, default tenant); plus node failures with (retained) wills "
-                "whose topics are named like the other tenant's mount point, watched before and subscribed to after the failure" % (6 if thorough else 5),
+                "whose topics are named like the other tenant's mount point, watched before and subscribed to after the failure; plus 5 schedules in which the "
+                "same client identifier is used in both tenants with keep-alive exchanges before and after the other one connects" % (6 if thorough else 5),
         "events_validated": nev, "trace_spec_states": tstates, "rejections": len(rejected),
         "samples": [hs[0], hs[len(hs) // 2]],
     }, ["mount points named like 'org/north' (with a '/') are exercised; a mount point that is a prefix-plus-'/' of another one AND publishes topics that spell the other one's name would alias by construction - the casts avoid topics starting with the sibling's last component; '+' and '#' in mount-point names are not exercised",
